@@ -323,11 +323,34 @@ func (s *Schema) ManifestV2() []byte {
 	return b
 }
 
+// flattenedFieldsV1: the root module's spec lists the fields of included records inline, each marked with the
+// directly included record it comes through.
+func (s *Schema) flattenedFieldsV1(n *Named) []any {
+	fs := []any{}
+	for _, inc := range n.Includes {
+		for _, f := range s.AllFields(s.Lookup(inc)) {
+			m := fieldJSON(f)
+			m["includedFrom"] = identJSON(inc)
+			fs = append(fs, m)
+		}
+	}
+	for _, f := range n.Fields {
+		fs = append(fs, fieldJSON(f))
+	}
+	return fs
+}
+
 // SpecV1 renders the parser output consumed by the root module's generator ({"dataTypes":[...],"resources":[...]}).
 func (s *Schema) SpecV1() []byte {
 	types := []any{}
 	for _, n := range s.Types {
-		types = append(types, namedJSON(n))
+		j := namedJSON(n)
+		if n.Kind == "record" {
+			rec := j["record"].(map[string]any)
+			delete(rec, "includes")
+			rec["fields"] = s.flattenedFieldsV1(n)
+		}
+		types = append(types, j)
 	}
 	rs := []any{}
 	for _, r := range s.Resources {
